@@ -31,7 +31,8 @@ def check(tier):
             'jsmn_parse_string) and the token walk of Data::fromJSON (every read of the token array inside the allocation, no '
             'pop/back on an empty stack, values attached to the enclosing container, object keys and string atoms taken from token text that went through jsonUnescape, termination) are mechanically extracted to C; '
             'the walk is checked against the CONTRACT of jsmn_parse (tokens_ok), whose structural clauses are checked bounded against '
-            'the real jsmn.c. These layers are BOUNDED and reported in the bounded_* counters only. Data::toJSON, Data tree building and '
+            'the real jsmn.c; two slices of Data::toJSON (the statement writing an object key, the branches writing an atom) emit text the real '
+            'jsmn_parse_string reads back as one string token whose unescaped content is the key / atom (O_tojson). These layers are BOUNDED and reported in the bounded_* counters only. The rest of Data::toJSON, Data tree building and '
             'Event<->Data are C++ containers outside CBMC\'s reach and are not covered.')
     return common.finish('C15', tier, 'proof', parts, t0, expl)
 
